@@ -1007,6 +1007,7 @@ impl<'a, 'tcx> BodyCx<'a, 'tcx> {
                 all.extend(b.iter().map(|x| self.pat(x)));
                 o.push(("pats".into(), J::Arr(all)));
                 o.push(("min".into(), J::Int((a.len() + b.len()) as i128)));
+                o.push(("nb".into(), J::Int(a.len() as i128)));
                 o.push(("rest".into(), J::Bool(m.is_some())));
             }
             _ => {
